@@ -250,6 +250,14 @@ func (s *c16Scn) setup(callGroups [][]int) error {
 			}
 			tmpl.DisableHTTPChallenge = o0.Kind != "http"
 			tmpl.DisableTLSALPNChallenge = o0.Kind != "tlsalpn"
+			if in.E2E.Shape == "retry" {
+				// the default configuration: both challenge types enabled, each on its own port
+				// (orders[0] is the HTTP-01 challenge of the name, orders[1] its TLS-ALPN-01 challenge)
+				_, p1, _ := net.SplitHostPort(h.addrs[in.Orders[1].Addr])
+				fmt.Sscanf(p1, "%d", &tmpl.AltTLSALPNPort)
+				tmpl.AltHTTPPort = port
+				tmpl.DisableHTTPChallenge, tmpl.DisableTLSALPNChallenge = false, false
+			}
 		}
 		iss := certmagic.NewACMEIssuer(e.cfg, tmpl)
 		if ci == 0 {
@@ -257,6 +265,9 @@ func (s *c16Scn) setup(callGroups [][]int) error {
 		}
 		c := &c16Call{orders: g, done: make(chan struct{})}
 		for _, i := range g {
+			if in.E2E.Shape == "retry" && len(c.names) > 0 {
+				break // one name, two challenge types
+			}
 			c.names = append(c.names, s.names[i])
 		}
 		c.ctx, c.cancel = context.WithCancel(context.Background())
@@ -299,8 +310,9 @@ func (s *c16Scn) start(ci int) { c16Starters[s.calls[ci]](); delete(c16Starters,
 
 // orderOf maps a validation to the order index.
 func (s *c16Scn) orderOf(v mockca.Validation) int {
+	typ := map[string]string{"http": "http-01", "tlsalpn": "tls-alpn-01", "dns": "dns-01"}
 	for i, n := range s.names {
-		if strings.TrimPrefix(n, "*.") == v.Ident && strings.HasPrefix(n, "*.") == v.Wildcard {
+		if strings.TrimPrefix(n, "*.") == v.Ident && strings.HasPrefix(n, "*.") == v.Wildcard && typ[s.in.Orders[i].Kind] == v.Type {
 			return i
 		}
 	}
@@ -610,7 +622,7 @@ func (e *c16Env) runE2E(w *emit.Writer, in c16In, desc map[string]any, r *rand.R
 		groups = [][]int{{0}}
 	case "two":
 		groups = [][]int{{0}, {1}}
-	case "multi":
+	case "multi", "retry":
 		groups = [][]int{{0, 1}}
 	default:
 		return fmt.Errorf("bad e2e shape %q", sc.Shape)
@@ -812,6 +824,53 @@ func (e *c16Env) runE2E(w *emit.Writer, in c16In, desc map[string]any, r *rand.R
 			items = append(items, c16Item{Order: 1, Observed: late1})
 		}
 		s.emit(items, "finished")
+	case "retry":
+		// both challenge types enabled; the CA rejects the first one acmez tries, acmez orders again and
+		// uses the other type (after a pause of one second)
+		s.start(0)
+		arr := s.await(1)
+		if len(arr) < 1 || s.failed != "" {
+			if s.failed == "" {
+				s.failed = "the order did not reach validation"
+			}
+			s.step(c16Step{Order: 0})
+			s.emit(nil, "stuck")
+			break
+		}
+		i1 := s.orderOf(arr[0].v)
+		i2 := 1 - i1
+		s.step(c16Step{Order: i1})
+		ok1, _ := s.validate(i1)
+		s.emit([]c16Item{{Order: i1, Observed: ok1}}, "validating")
+		arr[0].reply <- mockca.Prob(403, "unauthorized", "the CA did not see the expected response")
+		arr2 := s.await(1)
+		s.step(c16Step{Clean: true, Order: i1})
+		if len(arr2) < 1 || s.failed != "" || s.orderOf(arr2[0].v) != i2 {
+			// no second attempt with the other type: the order simply failed
+			for _, a := range arr2 {
+				a.reply <- mockca.Prob(403, "unauthorized", "unexpected second validation")
+			}
+			s.waitCall(0)
+			s.emit([]c16Item{{Outcome: true, Order: i2, Validated: true, Observed: s.calls[0].err == nil}}, "no-retry")
+			break
+		}
+		s.step(c16Step{Order: i2})
+		ok2, _ := s.validate(i2)
+		late1, _ := s.validate(i1)
+		s.emit([]c16Item{{Order: i2, Observed: ok2}, {Order: i1, Observed: late1}}, "retry-validating")
+		if ok2 {
+			arr2[0].reply <- nil
+		} else {
+			arr2[0].reply <- mockca.Prob(403, "unauthorized", "validation failed")
+		}
+		s.waitCall(0)
+		s.step(c16Step{Clean: true, Order: i2})
+		it := c16Item{Outcome: true, Order: i2, Validated: ok2, Observed: s.calls[0].err == nil && s.calls[0].cert != nil}
+		if s.calls[0].err != nil {
+			it.IssueError = s.calls[0].err.Error()
+		}
+		late2, _ := s.validate(i2)
+		s.emit([]c16Item{it, {Order: i2, Observed: late2}}, "finished")
 	case "multi":
 		s.start(0)
 		arr := s.await(1)
@@ -872,6 +931,9 @@ func c16E2EIn(shape, kind, variant string, honour bool) c16In {
 		}
 	}
 	switch shape {
+	case "retry":
+		in.Addrs = []string{"free", "free"}
+		in.Orders = []c16Order{{Kind: "http", Addr: 0, Ident: "a"}, {Kind: "tlsalpn", Addr: 1, Ident: "a"}}
 	case "single":
 		in.Orders = []c16Order{{Kind: kind, Ident: "a"}}
 	default:
